@@ -654,7 +654,19 @@ pub fn eval_variadic_operation<'a>(
         let mut ranges = Ranges::new();
         for operand in operation.operands() {
             let r = cast_ranges(eval_any(ctx, operand, AnnRef::default())?);
-            ranges.extend(r.into_iter());
+            for (k, c) in r.into_iter() {
+                // Two alternatives for the same status and media type must agree.
+                if let Some(prev) = ranges.get(&k) {
+                    if *prev != c {
+                        return Err(Error::new(
+                            Kind::InvalidType,
+                            "conflicting alternatives for the same status and media type",
+                        )
+                        .at(operand.span()));
+                    }
+                }
+                ranges.insert(k, c);
+            }
         }
         Expr::Ranges(Box::new(ranges))
     } else {
